@@ -50,11 +50,14 @@ let () =
           (b2s (sh_shut e)) (int_of_nat (sh_gone e)) (int_of_nat (sh_pcI e)) (b2s (sh_wait e)) (b2s en);
         let f = run (sh_step_cfg cfg_selfail_fixed) (sh_selfail_witness @ sh_finishing) sh_init in
         Printf.printf "witness select_failure_fixed finishes=%s gone=%d\n" (b2s (sh_final f)) (int_of_nat (sh_gone f));
-        let n0 = run (nf_step (nat_of_int 0)) nf_gone_witness (nf_init (nat_of_int 0)) in
+        let n0 = run (nf_step false (nat_of_int 0)) nf_gone_witness (nf_init (nat_of_int 0)) in
         Printf.printf "witness newfb_disconnect returned=%s sendmutex_owner=%d client_thread_pc=%d ok=%s\n"
-          (b2s (int_of_nat (nf_pcA n0) = 7)) (int_of_nat (nf_send n0)) (int_of_nat (nf_pcB n0)) (b2s (nf_ok n0));
-        let n1 = run (nf_step (nat_of_int 1)) nf_new_witness (nf_init (nat_of_int 1)) in
-        Printf.printf "witness newfb_accept bad_unlock=%s\n" (b2s (nf_badunlock n1))
+          (b2s (int_of_nat (nf_pcA n0) = 8)) (int_of_nat (nf_send n0)) (int_of_nat (nf_pcB n0)) (b2s (nf_ok n0));
+        let n1 = run (nf_step false (nat_of_int 1)) nf_new_witness (nf_init (nat_of_int 1)) in
+        Printf.printf "witness newfb_accept bad_unlock=%s\n" (b2s (nf_badunlock n1));
+        let g0 = run (nf_step true (nat_of_int 0)) (nf_gone_witness @ nf_finishing) (nf_init (nat_of_int 0)) in
+        let g1 = run (nf_step true (nat_of_int 1)) (nf_new_witness @ nf_finishing) (nf_init (nat_of_int 1)) in
+        Printf.printf "witness newfb_fixed disconnect_ok=%s final=%s accept_ok=%s final=%s\n" (b2s (nf_ok g0)) (b2s (nf_final g0)) (b2s (nf_ok g1)) (b2s (nf_final g1))
     | "sj" :: rep :: ws ->
         let s = run (sj_step (rep = "1")) (sched_of ws) sj_init in
         Printf.printf "sj final=%s freed=%s uaf=%s\n" (b2s (sj_final s)) (b2s (sj_freed s)) (b2s (sj_uaf s))
@@ -63,10 +66,13 @@ let () =
         let s = run f (sched_of ws) sh_init in
         let en = List.exists (fun t -> enabled f (nat_of_int t) s) [0; 1; 2; 3] in
         Printf.printf "sh final=%s enabled=%s gone=%d\n" (b2s (sh_final s)) (b2s en) (int_of_nat (sh_gone s))
-    | "nf" :: mode :: ws ->
+    | "nf" :: fixed :: mode :: ws ->
         let m = nat_of_int (int_of_string mode) in
-        let s = run (nf_step m) (sched_of ws) (nf_init m) in
+        let s = run (nf_step (fixed = "1") m) (sched_of ws) (nf_init m) in
         Printf.printf "nf final=%s ok=%s send=%d bad_unlock=%s\n" (b2s (nf_final s)) (b2s (nf_ok s)) (int_of_nat (nf_send s)) (b2s (nf_badunlock s))
+    | "iw" :: waits :: ws ->
+        let s = run (iw_step (waits = "1")) (sched_of ws) iw_init in
+        Printf.printf "iw final=%s uaf=%s freed0=%s freed1=%s\n" (b2s (iw_final s)) (b2s (iw_uaf s)) (b2s (iw_fr0 s)) (b2s (iw_fr1 s))
     | "it" :: rep :: ws ->
         let s = run (it_step (rep = "1")) (sched_of ws) it_init in
         Printf.printf "it uaf=%s\n" (b2s (it_uaf s))
